@@ -52,6 +52,7 @@ class TG:
         self.names: list[str] = []
         self.defined: list[str] = []
         self.force_duplicate = False
+        self.pending_plain_keyword = False
 
     def tag(self, t):
         self.tags.add(t)
@@ -229,7 +230,13 @@ class TG:
 
         def commas():
             return (',' + self.rng.choice([' ', ''])).join(self.element(d) for _ in range(max(n, 2)))
-        return self.ch([('spaced', spaced)] * 4 + [('commas', commas)], 'sequence')
+        def atom_then_qregex():
+            # `optional` reads  atom '?'  only when the '?' does not open a regex:  =atom !('?"' | "?'" | '?/') '?'
+            p = self.rng.choice(['a+', r'\d', 'x|y'])
+            form = self.ch([('?"', lambda: '?"' + p + '"'), ("?'", lambda: "?'" + p + "'"), ('?/', lambda: '?/' + p + '/?')],
+                           'optional.not-before')
+            return self.plain_atom(d) + self.rng.choice(['', ' ', ' ']) + form + (self.sp() + self.element(d) if n > 2 else '')
+        return self.ch([('spaced', spaced)] * 8 + [('commas', commas)] * 2 + [('atom-then-?regex', atom_then_qregex)], 'sequence')
 
     def expre(self, d):
         def choice():
@@ -280,6 +287,10 @@ class TG:
         # after `name::A, b` the grammar's  {',' literal !'=' ~}  refuses a literal followed by '='
         op = self.rng.choice([':', '::=', ':='] if colon_params else ['=', ':', '::=', ':='])
         self.tag('rule.op' + op)
+        if self.pending_plain_keyword and out == name:
+            # the plain keyword list  {+=(word | string) !(':' | '=')}+  must stop before the name of the next rule
+            self.tag('keyword.plain-then-rule' + op[0])
+        self.pending_plain_keyword = False
         out += self.rng.choice([' ', '']) + op + self.sp()
         out += self.expre(d)
         ends = ['semicolon'] * 6 + ['blank'] * 3 + ['dedent'] + (['eof'] * 4 if last else [])
@@ -296,11 +307,16 @@ class TG:
             self.tag('directive.' + n)
             return self.ch([('::bool', lambda: f'@@{n} :: ' + self.rng.choice(['True', 'False'])), ('bare', lambda: f'@@{n}')],
                            'directive.boolean')
+        self.pending_plain_keyword = False
         return self.ch([
             ('comments', lambda: '@@comments :: ' + self.regex()),
             ('eol_comments', lambda: '@@eol_comments :: ' + self.regex()),
-            ('whitespace', lambda: '@@whitespace :: ' + self.ch([('regex', self.regex), ('string', self.string), ('None', lambda: 'None'),
-                                                                ('False', lambda: 'False')], 'directive.whitespace')),
+            # the last alternative of value=(regex | string | 'None' | 'False' | `None`) consumes nothing: the directive
+            # is written without a value and the next directive / keyword / rule follows
+            ('whitespace', lambda: '@@whitespace ::' + self.ch([('regex', lambda: ' ' + self.regex()), ('string', lambda: ' ' + self.string()),
+                                                               ('None', lambda: ' None'), ('False', lambda: ' False'),
+                                                               ('empty', lambda: self.rng.choice(['', ' ', '  # none']))],
+                                                              'directive.whitespace')),
             ('boolean', boolean), ('boolean', boolean),
             ('grammar', lambda: '@@grammar' + self.rng.choice([' :: ', '::']) + self.rng.choice(['Test', 'my_g'])),
             ('namechars', lambda: '@@namechars :: ' + self.quoted(self.rng.choice(['-', '$-', '']))),
@@ -309,8 +325,14 @@ class TG:
     def keyword(self):
         ws = [self.ch([('word', self.word), ('string', lambda: self.quoted(self.rng.choice(['if', 'then', 'x y'])))], 'keyword.item')
               for _ in range(self.rng.choice([1, 2, 3]))]
-        return self.ch([('parens', lambda: '@@keyword :: (' + ' '.join(ws) + ')'), ('plain', lambda: '@@keyword :: ' + ' '.join(ws))],
-                       'keyword') + '\n'
+        def plain():
+            self.pending_plain_keyword = True
+            return '@@keyword :: ' + ' '.join(ws)
+
+        def parens():
+            self.pending_plain_keyword = False
+            return '@@keyword :: (' + ' '.join(ws) + ')'
+        return self.ch([('parens', parens), ('plain', plain)], 'keyword') + '\n'
 
     def grammar(self, nrules=None, depth=None):
         n = nrules or self.rng.choice([1, 1, 2, 3, 4])
@@ -456,7 +478,14 @@ def canon_model(m):
     from tatsu import peg as g
     if not isinstance(m, g.Grammar):
         return ('not-a-grammar', type(m).__name__)
-    return ('model', t_boot.model_tree(m), m.pretty(), json.dumps(m.asjson(), sort_keys=True, default=repr))
+    # the three views are taken separately: a printer that raises on a model (pretty() on directives {'whitespace': None} does,
+    # recorded under C13) must not hide the other two from the comparison
+    def view(f):
+        try:
+            return f()
+        except Exception as e:  # noqa: BLE001
+            return f'<raises {type(e).__name__}>'
+    return ('model', t_boot.model_tree(m), view(m.pretty), view(lambda: json.dumps(m.asjson(), sort_keys=True, default=repr)))
 
 
 def canon(out):
@@ -513,12 +542,84 @@ class CovSem:
         return getattr(self._inner, name)
 
 
+OPT_SEEN: set = set()      # branch keys taken during the current coverage parse (see instrument_branches)
+
+
+def model_kids(n):
+    from tatsu import peg as g
+    out = []
+    for f in ('exp', 'sep'):
+        c = getattr(n, f, None)
+        if isinstance(c, g.Model):
+            out.append(c)
+    for f in ('sequence', 'options'):
+        out += list(getattr(n, f, None) or ())
+    return out
+
+
+def instrument_branches(Mcov) -> dict:
+    """Branch-level view of the TatSu grammar: every option of every choice and the body of every optional of `Mcov` (a
+    private compiled copy of _tatsu.ebnf, used for coverage only) records its key in OPT_SEEN each time it SUCCEEDS.
+    -> {key: (rule, one-line text of the branch, called rule or None)}.  Rule includes are expanded copies sharing the
+    same objects: a shared branch is one branch, named after the first rule it is met in."""
+    from tatsu import peg as g
+    keys: dict = {}
+    done: set = set()
+
+    def wrap(e, key):
+        orig = e._parse
+
+        def traced(ctx, _orig=orig, _key=key):
+            v = _orig(ctx)
+            OPT_SEEN.add(_key)
+            return v
+        object.__setattr__(e, '_parse', traced)
+
+    def one_line(e):
+        try:
+            return ' '.join(str(e._pretty(lean=True)).split())[:70]
+        except Exception:  # noqa: BLE001
+            return type(e).__name__
+
+    for r in Mcov.rules:
+        counter = {'choice': 0, 'optional': 0}
+
+        def walk(n, r=r, counter=counter):
+            if isinstance(n, g.Choice):
+                k = counter['choice']
+                counter['choice'] += 1
+                for i, o in enumerate(n.options):
+                    e = o.exp if isinstance(o, g.Option) else o
+                    if id(e) not in done:
+                        done.add(id(e))
+                        key = f'{r.name}|{k}.{i}'
+                        keys[key] = (r.name, one_line(e), e.name if isinstance(e, g.Call) else None)
+                        wrap(e, key)
+            elif isinstance(n, g.Optional):
+                k = counter['optional']
+                counter['optional'] += 1
+                e = n.exp
+                if id(e) not in done:
+                    done.add(id(e))
+                    key = f'{r.name}?{k}'
+                    keys[key] = (r.name, '[' + one_line(e) + ']', None)
+                    wrap(e, key)
+            for c in model_kids(n):
+                walk(c)
+        walk(r.exp)
+    return keys
+
+
 def productions_of(ctx, text):
-    """the rules of _tatsu.ebnf that succeed at least once while the compiled grammar parses `text`"""
+    """the rules of _tatsu.ebnf that succeed at least once while the compiled grammar parses `text`, and the branches
+    (choice options, optional bodies) that succeeded"""
     from tatsu.peg.semantics import GrammarSemantics
     from tatsu.util import safe_name
     seen: set = set()
-    out = guarded(lambda t: ctx['M'].parse(t, start='start', semantics=CovSem(GrammarSemantics(None), seen)), text)
+    OPT_SEEN.clear()
+    M = ctx.get('Mcov') or ctx['M']
+    out = guarded(lambda t: M.parse(t, start='start', semantics=CovSem(GrammarSemantics(None), seen)), text)
+    ctx['branches_last'] = set(OPT_SEEN)
     return {r for r in ctx['rulenames'] if r in seen or safe_name(r) in seen}, out[0]
 
 
@@ -657,10 +758,14 @@ def shard(col, shard_i, nvalid, nmut, corpus):
         prods, _ = productions_of(ctx, text)
         for p in prods:
             col.count('production.' + p)
+        for b in ctx.get('branches_last', ()):
+            col.count('branch.' + b)
         for t in tags:
             col.count('alt.' + t)
         for c in re.findall(r'"__class__": "(\w+)"', outs['shipped'][4]):
             col.count('node.' + c)
+        if outs['shipped'][3].startswith('<raises '):
+            col.count('model.pretty-' + outs['shipped'][3].strip('<>').replace(' ', '-'))
         col.sample({'origin': origin, 'text': text[:300], 'outcome': 'accepted by all four parsers, equal models'})
         return True
 
@@ -908,7 +1013,9 @@ def main():
                 'multi-line strings, the four regex forms incl. deprecated ?/../?, >> , $->, comma sequences, the four rule operators and the '
                 'four rule terminators, four comment styles), the grammar files shipped in /repo, and mutants (delete/insert/transpose/replace/'
                 'truncate/cut) of the accepted ones; each text through 4 parsers (shipped generated, compiled grammar interpreted, bootparser.py, '
-                'regenerated) + raw ASTs of two; coverage = rules of _tatsu.ebnf that succeeded in accepted texts.')
+                'regenerated) + raw ASTs of two; coverage = rules of _tatsu.ebnf that succeeded in accepted texts, and every choice option / '
+                'optional body of the grammar (instrumented private copy) taken in an accepted text, incl. the value-less @@whitespace, '
+                'an atom directly before a ?-regex, a plain keyword list directly before a rule header.')
     chk.trusted += ['harness/translate/t_boot.py: serialisation of models / Python syntax trees into btree (fail closed on unknown field types); '
                     'Model.optimized() on the compile side of `GRAMMAR_MODEL = optimized model`',
                     'GrammarSemantics, the generated-code runtime and the regex engine are the real Python (the for-all-texts part is the '
@@ -932,6 +1039,15 @@ def main():
         chk.obligation('B1: the regenerated parser source loads', 'correspondence', False, f'{type(e).__name__}: {e}')
         return chk.finish()
     CTX['rulenames'] = [r.name for r in arts['M'].rules]
+    # a private, instrumented copy of the compiled grammar for branch coverage (another name = another entry of compile()'s cache)
+    import tatsu
+    Mcov = tatsu.compile(t_boot.ebnf_text(), name=NAME + 'Coverage')
+    branch_keys = {}
+    if Mcov is not arts['M'] and t_boot.model_tree(Mcov)[2] == t_boot.model_tree(arts['M'])[2]:
+        branch_keys = instrument_branches(Mcov)
+        CTX['Mcov'] = Mcov
+    chk.obligation('B2 coverage: an instrumented private copy of the compiled grammar (same rules) records the branches taken',
+                   'oracle', bool(branch_keys))
     corpus = []
     small = ['grammar/calc.ebnf', 'grammar/include.tatsu', 'grammar/calc_model.tatsu', 'examples/calc/grammars/calc_cut.tatsu',
              'examples/calc/grammars/calc_annotated.tatsu', 'examples/calc/grammars/calc_factored.tatsu', 'draft/lisp/lisp.tatsu']
@@ -971,6 +1087,18 @@ def main():
                    not missing, 'missing: ' + ' '.join(missing))
     chk.obligation('B2 coverage: every generator alternative occurs in an accepted text', 'oracle', not alts_missing,
                    'missing: ' + ' '.join(alts_missing))
+    # branch coverage of the grammar itself (not of the generator): every option of every choice and every optional body of a
+    # rule reachable from start must have succeeded in an accepted text, unless it calls a production shown unsatisfiable above
+    br_cov = {k[len('branch.'):] for k in chk.dist if k.startswith('branch.')}
+    br_all = {k: v for k, v in branch_keys.items() if v[0] in reachable or v[0] in include_only}
+    br_excused = {k: f'calls `{v[2]}`: {unsat[v[2]]}' for k, v in br_all.items() if v[2] in unsat}
+    br_missing = sorted(k for k in br_all if k not in br_cov and k not in br_excused)
+    chk.extra['coverage_branches'] = {
+        'branches (choice options + optional bodies) of reachable rules': len(br_all), 'taken_in_accepted_texts': len(br_cov & set(br_all)),
+        'missing': {k: br_all[k][1] for k in br_missing}, 'excused': br_excused,
+    }
+    chk.obligation('B2 coverage: every choice option and optional body of _tatsu.ebnf reachable from start was taken in an accepted text',
+                   'oracle', bool(br_all) and not br_missing, 'missing: ' + '; '.join(f'{k} {br_all[k][1]}' for k in br_missing))
     chk.obligation('B2: shipped generated parser == compiled grammar interpreted == bootparser.py == regenerated parser on every text', 'oracle',
                    not any(v['signature'].startswith('B2:') for v in chk.violations) and
                    not any(s.startswith('B2:') for s in chk.known_hits))
